@@ -96,3 +96,13 @@ Example C02_pending_call_on_a_cancelled_actor :
   end = Some (false, PhDone, Some (RErr ECanceled))
   /\ accepts [EvSpawn 0 c; EvHandle 0 0 KAddr; EvOp 1 0 0 OCall 0 0; EvCrash 0; EvTaskEnd 0 EndCancelled; EvQuiesce] = false.
 Proof. vm_compute. split; reflexivity. Qed.
+
+(** Nothing drops out of sight: an operation that has been issued and has not returned stays in
+    the list the progress rule inspects ([pending]; at every quiet point each listed operation
+    must be unable to return, C02_nothing_hangs_on_a_dead_actor) until the very event that is
+    its return - or until its caller gives up on it (a call whose future is dropped). *)
+Theorem C02_pending_until_returned_or_given_up :
+  forall s e s' o, step s e = Acc s' -> In o (pending s) ->
+  In o (pending s') \/ (exists r, e = EvRet o r) \/ e = EvAbandon o.
+Proof. exact step_pending. Qed.
+Print Assumptions C02_pending_until_returned_or_given_up.
